@@ -665,6 +665,22 @@ def check_classical_gate_types(ctx):
                       sig="classical-wires", exact=True, required="an int stands for that many bits, for the domain and for the codomain separately")
 
 
+def check_tk_circuit_state(ctx):
+    """R13.14: what a tk.Circuit records next to the tket circuit starts neutral: no post-selection, scalar 1, the identity post-processing on the bits that are not post-selected"""
+    m = ctx.model
+    fn = m.func(TK + ".Circuit.__init__")
+    ctx.analysed(TK + ".Circuit.__init__")
+    a = [x.arg for x in fn.args.args]
+    d = dict(zip(a[len(a) - len(fn.args.defaults):], [ast.unparse(x) for x in fn.args.defaults]))
+    ctx.ob("R13.14", TK + ".Circuit.__init__:defaults", a[1:] == ["n_qubits", "n_bits", "post_selection", "scalar", "post_processing"] and d == {"n_qubits": "0", "n_bits": "0", "post_selection": "None", "scalar": "None",
+           "post_processing": "None"}, found=ast.unparse(fn.args), required="(n_qubits=0, n_bits=0, post_selection=None, scalar=None, post_processing=None)", mod=TK, node=fn, sig="tk-init-defaults")
+    shape.match_stmts(ctx, "R13.14", TK + ".Circuit.__init__:state", [s for s in fn.body if isinstance(s, ast.Assign)],
+                      ["self.post_selection = post_selection or {}", "self.scalar = scalar or 1", "self.post_processing = post_processing or Id(bit ** (n_bits - len(self.post_selection)))"], mod=TK, node=fn,
+                      sig="tk-init-state", exact=True, required="each recorded piece is the one given, else its neutral value (the scalar 1; the identity on the bits left after post-selection)")
+    sup = next((c for c in ast.walk(fn) if isinstance(c, ast.Call) and ast.unparse(c.func) == "super().__init__"), None)
+    shape.match(ctx, "R13.14", TK + ".Circuit.__init__:tket", sup, "super().__init__(n_qubits, n_bits)", {}, mod=TK, node=fn, sig="tk-init-tket")
+
+
 def check_counts_pipeline(ctx):
     """R13.14: what tk.Circuit.get_counts does to the raw counts of the backend: options read under their own names, frequencies, the recorded post-selection, the recorded scalar"""
     m = ctx.model
@@ -731,6 +747,7 @@ def check(ctx):
     m = ctx.model
     ctx.rule("R13.14", "tk.Circuit.get_counts: options under their own names; raw counts per circuit in order; normalise, keep the outcomes agreeing with the recorded post-selection keyed by the other bits, scale by the recorded scalar")
     ctx.attempt(check_counts_pipeline, ctx)
+    ctx.attempt(check_tk_circuit_state, ctx)
     top = m.func(TK + ".to_tk")
     ctx.rule("R13.15", "measurements: the j-th wire of the box goes from qubits[qubit_offset + j] into its own bit (Measure(qubit, bit)); effects post-select that bit on their j-th digit; discarded bits are the all-ones effect")
     ctx.attempt(check_measurements, ctx, top)
